@@ -130,10 +130,17 @@ impl Visitor<Diagnostic> for RuleDeclaredEnumeratedValues<'_> {
     ) -> Result<Self::Value, Diagnostic> {
         let defined_values = self.find_enum_declaration_values(&init.type_name)?;
         if let Some(value) = &init.initial_value {
-            // TODO this is using the Id, but not the full enumerated value
-            // and we don't have declared appropriate comparison between things
-            // that are known but partially declared
-            if !defined_values.contains(value) {
+            // The value is the same value whether or not it is written with the
+            // type name in front. When the use names a type, that type must be
+            // the enumeration that defines the values.
+            let is_defined = defined_values.iter().any(|v| v.value == value.value);
+            let is_of_type = match &value.type_name {
+                Some(type_name) => {
+                    std::ptr::eq(self.find_enum_declaration_values(type_name)?, defined_values)
+                }
+                None => true,
+            };
+            if !is_defined || !is_of_type {
                 return Err(Diagnostic::problem(
                     Problem::EnumValueNotDefined,
                     Label::span(value.span(), "Expected value in enumeration"),
